@@ -701,3 +701,113 @@ Theorem g_pub_min_duration_is_model fuel z tl s e p :
   gm_pub_min_duration fuel z tl (mb_of_bound s) (mb_of_bound e) p = res_of_ivls (Metrics.min_duration z tl s e p).
 Proof. intros H. rewrite (g_pub_min_duration_eq _ _ _ _ _ _ (fuel_ok_model _ _ _ _ _ H)). apply min_duration_m_model. Qed.
 Print Assumptions g_pub_min_duration_is_model.
+
+(* ========================================================================================== *)
+(* 7. non-vacuity: concrete runs meet the hypotheses, and every kind of outcome occurs          *)
+
+Definition gm_tl0 : expr :=
+  Stored [mkI (Some 1000) (Some 90000) Plain; mkI (Some 50000) (Some 120000) (Rich 7);
+          mkI (Some 700000) (Some 700600) Plain].
+
+Example g_pub_inst_fuel :
+  (windows_fuel utc_zone (coerce_bound utc_zone (BInt 0)) (coerce_bound utc_zone (BInt 1000000)) PDay <= 20)%nat /\
+  fuel_ok utc_zone (MBInt 0) (MBInt 1000000) PDay 20 /\
+  fuel_ok utc_zone MBNaive (MBInt 1000000) PDay 0.
+Proof.
+  split; [vm_compute; lia|]. split.
+  - apply (fuel_ok_model utc_zone (BInt 0) (BInt 1000000)). vm_compute. lia.
+  - intros a b Ha. discriminate.
+Qed.
+
+Example g_pub_total_duration_inst :
+  gm_pub_total_duration 20 utc_zone gm_tl0 (MBInt 0) (MBInt 1000000) PDay None =
+    RDone (inl [(0, 85400); (1, 33600); (2, 0); (3, 0); (4, 0); (5, 0); (6, 0); (7, 0); (8, 600); (9, 0); (10, 0); (11, 0)]) /\
+  gm_pub_total_duration 20 utc_zone gm_tl0 (MBInt 0) (MBInt 1000000) PDay (Some GDayOfWeek) =
+    RDone (inr [(0, 0); (1, 0); (2, 0); (3, 85400); (4, 34200); (5, 0); (6, 0)]) /\
+  Metrics.total_duration utc_zone gm_tl0 (BInt 0) (BInt 1000000) PDay (Some GDayOfWeek) =
+    RInts [(0, 0); (1, 0); (2, 0); (3, 85400); (4, 34200); (5, 0); (6, 0)] /\
+  gm_pub_total_duration 20 utc_zone gm_tl0 (MBInt 0) (MBInt 1000000) PDay (Some GHourOfDay) = RRaise ValueError /\
+  gm_pub_total_duration 20 utc_zone gm_tl0 MBNaive (MBInt 1000000) PDay None = RRaise TypeError /\
+  gm_pub_total_duration 3 utc_zone gm_tl0 (MBInt 0) (MBInt 1000000) PDay None = RFuel.
+Proof. vm_compute. repeat split. Qed.
+
+Example g_pub_others_inst :
+  gm_pub_coverage_ratio 20 utc_zone gm_tl0 (MBDate 1970 1 1) (MBDate 1970 1 9) PWeek (Some GWeekOfYear) =
+    RDone (inr [(1, (119000, 604800)); (2, (0, 604800))]) /\
+  gm_pub_coverage_ratio 20 utc_zone gm_tl0 (MBDate 1970 1 1) (MBDate 1970 1 9) PWeek None =
+    RDone (inl [(-3, (119000, 604800)); (4, (0, 604800))]) /\
+  gm_pub_count_intervals 20 utc_zone gm_tl0 (MBInt 0) (MBAware 1000000) PDay (Some GDayOfMonth) =
+    RDone (inr [(1, 2); (2, 2); (3, 0); (4, 0); (5, 0); (6, 0); (7, 0); (8, 0); (9, 1); (10, 0); (11, 0); (12, 0)]) /\
+  gm_pub_max_duration 20 utc_zone gm_tl0 (MBInt 0) (MBInt 1000000) PFull =
+    RDone [(0, Some (mkI (Some 1000) (Some 90000) Plain))] /\
+  gm_pub_min_duration 20 utc_zone gm_tl0 (MBInt 0) (MBInt 1000000) PMonth =
+    RDone [(0, Some (mkI (Some 700000) (Some 700600) Plain))].
+Proof. vm_compute. repeat split. Qed.
+
+(* ========================================================================================== *)
+(* 8. headline facts of C13 stated of the generated definitions (what the code says now)        *)
+From CG Require Proofs.Defs Spec.MetricsSpec.
+
+(* _total_duration of a stored timeline over a window is the measure of its coverage there *)
+Theorem src_total_is_measure evs ws we :
+  Forall Defs.wf_ivl evs -> NEG_INF < ws -> ws < we -> we < POS_INF ->
+  g_total_duration flatten_ tslice (Stored evs) ws we = MetricsSpec.measure evs ws we.
+Proof. intros. rewrite g_total_duration_eq. apply MetricsP.total_is_measure; assumption. Qed.
+Print Assumptions src_total_is_measure.
+
+(* ... and through make_timeline( *tl[A:B] ) as _windowed_agg / _grouped_agg build it *)
+Theorem src_total_is_measure_per_period evs A B s e :
+  Forall Defs.wf_ivl evs -> NEG_INF < A -> A < B -> B < POS_INF -> NEG_INF < s -> s < e -> e < POS_INF ->
+  g_total_duration flatten_ tslice (Stored (tslice (Stored evs) A B)) s e = MetricsSpec.measure evs (Z.max A s) (Z.min B e).
+Proof.
+  intros. rewrite g_total_duration_eq.
+  exact (MetricsP.total_is_measure_cached evs A B s e ltac:(assumption) ltac:(assumption) ltac:(assumption)
+           ltac:(assumption) ltac:(assumption) ltac:(assumption) ltac:(assumption)).
+Qed.
+Print Assumptions src_total_is_measure_per_period.
+
+(* _extremum_duration returns a bounded interval of the slice that is longest / shortest among the
+   bounded ones, and None exactly when there is none *)
+Theorem src_extremum_spec tl ws we fm :
+  match g_extremum_duration tslice tl ws we fm with
+  | None => forall y, In y (tslice tl ws we) -> MetricsP.blen y = None
+  | Some x => In x (tslice tl ws we) /\
+              exists l, MetricsP.blen x = Some l /\
+                        forall y d, In y (tslice tl ws we) -> MetricsP.blen y = Some d -> if fm then d <= l else l <= d
+  end.
+Proof. rewrite g_extremum_duration_eq. apply MetricsP.extremum_spec. Qed.
+Print Assumptions src_extremum_spec.
+
+(* count_intervals._agg on a stored timeline counts the events with an instant inside the window *)
+Theorem src_count_is_hits evs ws we :
+  ws <= we -> g_count_agg tslice (Stored evs) ws we = Z.of_nat (length (filter (MetricsSpec.hits ws we) evs)).
+Proof. intros. rewrite g_count_agg_eq. apply MetricsP.count_is_hits. assumption. Qed.
+Print Assumptions src_count_is_hits.
+
+(* with the model's fuel no public function runs out of fuel *)
+Theorem src_metrics_never_out_of_fuel fuel z tl s e p g :
+  (windows_fuel z (coerce_bound z s) (coerce_bound z e) p <= fuel)%nat ->
+  gm_pub_total_duration fuel z tl (mb_of_bound s) (mb_of_bound e) p g <> RFuel /\
+  gm_pub_count_intervals fuel z tl (mb_of_bound s) (mb_of_bound e) p g <> RFuel /\
+  gm_pub_coverage_ratio fuel z tl (mb_of_bound s) (mb_of_bound e) p g <> RFuel /\
+  gm_pub_max_duration fuel z tl (mb_of_bound s) (mb_of_bound e) p <> RFuel /\
+  gm_pub_min_duration fuel z tl (mb_of_bound s) (mb_of_bound e) p <> RFuel.
+Proof.
+  intros H.
+  rewrite (g_pub_total_duration_is_model _ _ _ _ _ _ _ H), (g_pub_count_intervals_is_model _ _ _ _ _ _ _ H),
+    (g_pub_coverage_ratio_is_model _ _ _ _ _ _ _ H), (g_pub_max_duration_is_model _ _ _ _ _ _ H),
+    (g_pub_min_duration_is_model _ _ _ _ _ _ H).
+  pose proof (MetricsP2.metrics_never_out_of_fuel z tl FTotal s e p g) as H1.
+  pose proof (MetricsP2.metrics_never_out_of_fuel z tl FCount s e p g) as H2.
+  pose proof (MetricsP2.metrics_never_out_of_fuel z tl FRatio s e p g) as H3.
+  pose proof (MetricsP2.metrics_never_out_of_fuel z tl FMax s e p g) as H4.
+  pose proof (MetricsP2.metrics_never_out_of_fuel z tl FMin s e p g) as H5.
+  cbn [metrics_run] in H1, H2, H3, H4, H5.
+  repeat split.
+  - destruct (Metrics.total_duration z tl s e p g); cbn [res_of_ints]; try discriminate. congruence.
+  - destruct (Metrics.count_intervals z tl s e p g); cbn [res_of_ints]; try discriminate. congruence.
+  - destruct (Metrics.coverage_ratio z tl s e p g); cbn [res_of_rats]; try discriminate. congruence.
+  - destruct (Metrics.max_duration z tl s e p); cbn [res_of_ivls]; try discriminate. congruence.
+  - destruct (Metrics.min_duration z tl s e p); cbn [res_of_ivls]; try discriminate. congruence.
+Qed.
+Print Assumptions src_metrics_never_out_of_fuel.
